@@ -653,6 +653,56 @@ def _construction_semantics(ctx, psc: ClassInfo, adv: ClassInfo):
     return n, problems
 
 
+def _mixed_provides_semantics(ctx, psc: ClassInfo, pc: ClassInfo, adv: ClassInfo):
+    """PortsCfg(provides, requires) interpreted (E6): a provides configuration in which both sts and mts select something
+    (neither is NONE) must be refused with AdvShellError, any other accepted one must be accepted.  List of disagreements,
+    None when not interpretable."""
+    from ..scenario import Interp, Atom, EnumV, Raised, Undecided
+    prog = ctx.prog
+    ps = prog.cls('adv_shell.port_selection', 'PortSelect')
+    pw = prog.cls('adv_shell.port_selection', 'PortWildcard')
+    it = Interp(prog)
+    p, q = Atom('p'), Atom('q')
+    kinds = [('set', frozenset({p})), ('set', frozenset({q})), ('set', frozenset({p, q})), ('wild', 'ALL'), ('wild', 'REMAINING'),
+             ('wild', 'NONE')]
+    fields = list(prog.class_fields(pc))
+    if fields[:2] != ['provides', 'requires']:
+        return None
+    bad: List[str] = []
+    try:
+        def make(k):
+            return it.construct(ps, [set(k[1]) if k[0] == 'set' else EnumV(pw, k[1])], {})
+        req = it.construct(psc, [make(('wild', 'ALL')), make(('wild', 'NONE'))], {})
+        n = 0
+        for ks in kinds:
+            for km in kinds:
+                try:
+                    prov = it.construct(psc, [make(ks), make(km)], {})
+                except Raised:
+                    continue
+                n += 1
+                is_mixed = ks != ('wild', 'NONE') and km != ('wild', 'NONE')
+                try:
+                    it.construct(pc, [prov, req], {})
+                    got = None
+                except Raised as exc:
+                    got = exc.name
+                c = prog.classes.get(got) if got else None
+                is_adv = c is not None and (c is adv or prog.is_subclass(c.fq, adv.fq))
+                lab = f'sts={ks[1] if ks[0] == "wild" else sorted(a.name for a in ks[1])} mts={km[1] if km[0] == "wild" else sorted(a.name for a in km[1])}'
+                if is_mixed and got is None:
+                    bad.append(f'{lab}: mixed STS/MTS provides ports are not rejected')
+                elif is_mixed and not is_adv:
+                    bad.append(f'{lab}: refused with {got.split(".")[-1]}, not AdvShellError')
+                elif not is_mixed and got is not None:
+                    bad.append(f'{lab}: a uniform provides configuration is refused ({got.split(".")[-1]})')
+        if n < 8:
+            return None
+    except Undecided:
+        return None
+    return bad
+
+
 def _portselect_semantics(ctx, psel: ClassInfo, adv: ClassInfo):
     """PortSelect(set()) and PortSelect({''}) interpreted: True (refused with AdvShellError) / False (accepted) / name of
     another exception; None when not interpretable."""
@@ -810,7 +860,7 @@ def _rejects(ctx, ex, psc: ClassInfo, pc: ClassInfo, adv_err: ClassInfo):
                             and isinstance(a.targets[0], ast.Name) and a.targets[0].id == nm.id]
                     return defs[0].value if len(defs) == 1 else None
                 vals = [eval_guard(g.test, lf, local_def) for g in gs]
-                rejected = True if any(v is True for v in vals) else None if any(v is None for v in vals) else False
+                rejected = True if any(v is True for v in vals) else None if any(v is None for v in vals) or not gs else False
                 equal = (ks == km) and (ks != 'SET' or rel == 'equal')
                 want = equal or (ks == km == 'SET' and rel in ('equal', 'overlap')) or (ks == 'ALL' and km != 'NONE') or \
                     (km == 'ALL' and ks != 'NONE')
@@ -835,11 +885,18 @@ def _rejects(ctx, ex, psc: ClassInfo, pc: ClassInfo, adv_err: ClassInfo):
                 (f'{label}: not rejected for {bad[:4]}' if label != 'valid combination' else
                  f'valid combinations are rejected: {bad[:4]}'))
     post, gs = guards(pc)
-    hit = next((g for g in gs if 'provides.sts.is_not_empty' in ast.unparse(g.test) and
-                'provides.mts.is_not_empty' in ast.unparse(g.test)), None)
-    run.add('C03.rejects', pc.module.name, 'PortsCfg.__post_init__', hit if hit is not None else 'mixed provides', hit is not None,
-            'mixed STS/MTS provides ports: rejected with AdvShellError' if hit is not None else
-            'mixed STS/MTS provides ports are not rejected')
+    mixed = _mixed_provides_semantics(ctx, psc, pc, adv_err)
+    if mixed is not None:
+        run.add('C03.rejects', pc.module.name, 'PortsCfg.__post_init__', 'mixed provides', not mixed,
+                'mixed STS/MTS provides ports: rejected with AdvShellError, everything else accepted (construction interpreted for '
+                'every accepted pair of selections)' if not mixed else
+                'provides side: ' + '; '.join(mixed[:3]))
+    else:
+        hit = next((g for g in gs if 'provides.sts.is_not_empty' in ast.unparse(g.test) and
+                    'provides.mts.is_not_empty' in ast.unparse(g.test)), None)
+        run.add('C03.rejects', pc.module.name, 'PortsCfg.__post_init__', hit if hit is not None else 'mixed provides', hit is not None,
+                'mixed STS/MTS provides ports: rejected with AdvShellError' if hit is not None else
+                'mixed STS/MTS provides ports are not rejected')
     psel = prog.cls('adv_shell.port_selection', 'PortSelect')
     post, gs = guards(psel)
     texts = [ast.unparse(g.test) for g in gs]
